@@ -52,7 +52,12 @@ def gen_case(rng, kinds, max_depth=2, max_len=3, cap=40, opaque=False, ep=None, 
         epf = rng.random() < 0.6 if ep is None else ep
         m = pipes.loss(spec) + (2 if opaque else 1)
         eps, order = pipes.gen_layout(rng, m, n_eps=n_eps, extra=extra, ep=epf)
-        if opaque:
+        integral = not opaque
+        if opaque and rng.random() < 0.3:
+            # integer-valued samples (quantised measurements, counts) are valid data for every lifting function
+            rows = [[l] + [rng.randint(-3, 3) for _ in range(nx + nu)] for (l, t) in order]
+            integral = True
+        elif opaque:
             rows = [[l] + [round(rng.uniform(-2.0, 2.0), 3) for _ in range(nx + nu)] for (l, t) in order]
         else:
             rows = pipes.tagged_matrix(rng, order, nx + nu, 2, hi)
@@ -65,7 +70,7 @@ def gen_case(rng, kinds, max_depth=2, max_len=3, cap=40, opaque=False, ep=None, 
         if not epf:
             rows = [r[1:] for r in rows]
         exact_kinds = pipes.kinds_in(spec) <= {'poly', 'bilinear', 'const', 'delay', 'split', 'pipe'}
-        form = pick_form(rng, integral=not opaque, small=(not opaque) and exact_kinds and hi ** deg < 2 ** 22)
+        form = pick_form(rng, integral=integral, small=(not opaque) and exact_kinds and hi ** deg < 2 ** 22)
         return {'spec': spec, 'nx': nx, 'nu': nu, 'ep': epf, 'rows': rows, 'min_len': m, 'form': form, 'degenerate': degenerate}
     raise RuntimeError('generator could not produce a case')
 
@@ -87,6 +92,8 @@ def in_form(X, form):
         Y = X.copy()
         Y.setflags(write=False)
         return Y
+    if form in ('float32!', 'float16!'):
+        return X.astype(form[:-1])          # a genuine single / half precision data set (lossy cast accepted)
     if form in ('int64', 'int32', 'float32'):
         Y = X.astype(form)
         return Y if np.array_equal(Y.astype(float), X) else X        # only when the conversion is exact
